@@ -8,6 +8,11 @@ use serde::{Deserialize, Serialize};
 pub use stream::{EventStreamMessage, EventStreamSender, start_event_streaming};
 pub use write::JournalWriter;
 
+// Verification hooks (add-only): expose the private prune function to `crate::verif`.
+#[cfg(feature = "verif")]
+#[allow(unused_imports)]
+pub(crate) use prune::prune_journal as verif_prune_journal;
+
 const HQ_JOURNAL_HEADER: &[u8] = b"hqjl0002";
 
 const HQ_JOURNAL_VERSION_MAJOR: u32 = 26;
